@@ -17,12 +17,13 @@ RELATED = {
 
 
 def main():
-    only = sys.argv[1:]
+    only = [a for a in sys.argv[1:] if not a.startswith('--')]
+    table_only = '--table-only' in sys.argv
     rows = []
     seeds = sorted(d for d in os.listdir(os.path.join(HERE, "seeded")) if os.path.isdir(os.path.join(HERE, "seeded", d)))
     subprocess.run(["git", "-C", "/repo", "diff", "--quiet"], check=True)
     for sid in seeds:
-        if only and sid not in only:
+        if table_only or (only and sid not in only):
             continue
         sdir = os.path.join(HERE, "seeded", sid)
         meta = json.load(open(os.path.join(sdir, "meta.json")))
@@ -56,7 +57,6 @@ def main():
             k = "; ".join("%s: `%s`" % (d["check"], d["keys"][0][:110]) for d in det)
             f.write("| %s | %s | %s | %s |\n" % (sid, prop, verdict, k))
     # evidence/ was rewritten while seeds were applied: re-run every claimed check on the restored tree
-    import glob
     for ev in sorted(glob.glob(os.path.join(HERE, "evidence", "C*.json"))):
         c = os.path.basename(ev)[:-5]
         r = subprocess.run([os.path.join(HERE, "check"), c], cwd=HERE, capture_output=True, text=True)
